@@ -195,6 +195,9 @@ def std_pairings(reg, W=(1, 2), with_subtotals=True, sizes=None):
             quick=2, thorough=2)
     reg.add(Schema("num_cat3_1d_w", [A3], [("cat", 0)], weighted=True, numeric=dict(nm)), W, (None, 1), configs=ronly,
             quick=3, thorough=4)
+    # fractional weights (weighted bases between 0 and 1) on the two count-extractor families with per-cell bases
+    reg.add(S.schema2("fracw_cat2_x_cat2", A2, B2, weighted=True), (0.25, 0.5), configs=[{}], quick=3, thorough=4)
+    reg.add(S.schema2("fracw_mr_x_cat2", M, B2, weighted=True), (0.25, 0.5), configs=[{}], quick=2, thorough=2)
     reg.add(Schema("cat3_1d", [A3], [("cat", 0)], weighted=True), W, configs=ronly, quick=4, thorough=5)
     reg.add(Schema("catdate3_1d", [D3], [("cat", 0)], weighted=True), W, configs=ronly, quick=3, thorough=4)
     reg.add(Schema("mr3_1d", [S.mr("n", 3)], [("mr", 0)], weighted=True), W, configs=[{}], quick=2, thorough=3)
